@@ -161,10 +161,19 @@ impl Family for C08Family {
                 _ => false,
             };
             // the credential this ceremony selected (first one the lookup returned)
-            let selected = rec.events_of(o.actor, o.idx).find_map(|e| match &e.ev {
-                Ev::FindRet { result: Ok(v), .. } => v.first().cloned(),
-                _ => None,
-            });
+            let found: Vec<_> = rec
+                .events_of(o.actor, o.idx)
+                .filter_map(|e| match &e.ev {
+                    Ev::FindRet { result: Ok(v), .. } => Some(v.clone()),
+                    _ => None,
+                })
+                .flatten()
+                .collect();
+            // the credential that signed; for a failed ceremony the one the lookup listed first
+            let selected = match returned_id(o) {
+                Some(id) if o.result.is_ok() => found.iter().find(|f| f.id == id).cloned(),
+                _ => found.first().cloned(),
+            };
             let updates: Vec<_> = rec.events_of(o.actor, o.idx).filter(|e| matches!(&e.ev, Ev::Update { .. })).collect();
             if let Some(sel) = &selected {
                 let before = o.before.iter().find(|s| s.id == sel.id).and_then(|s| s.counter);
